@@ -334,6 +334,80 @@ pub fn check_env(c: &EnvCase, rec: &mut Rec) -> Result<(), String> {
 }
 
 #[derive(Clone, Debug, Serialize, Deserialize)]
+pub struct EnvChangeCase {
+    pub ym: bool,
+    pub clock: u32,
+    pub rate: u32,
+    /// 8 (repeating decay) or 12 (repeating attack)
+    pub up: bool,
+    pub ep1: u16,
+    /// new period = ep1 / divisor (>= 4), written without touching R13
+    pub divisor: u8,
+    /// how far into a ramp (per mille) the period is changed
+    pub at: u16,
+    pub channel: u8,
+}
+
+/// "The envelope steps with period 256*EP/f_clk": also after R11/R12 change while it runs (no R13
+/// write, so no restart) — from then on the repeating ramp has the new length.
+pub fn check_env_change(c: &EnvChangeCase, rec: &mut Rec) -> Result<(), String> {
+    let ch = (c.channel % 3) as usize;
+    let ramp_samples = |ep: u32| 256.0 * ep as f64 / c.clock as f64 * c.rate as f64;
+    let div = (c.divisor as u32).clamp(4, 64);
+    let mut ep2 = (c.ep1 as u32 / div).max(1);
+    while ramp_samples(ep2) < 96.0 {
+        ep2 *= 2;
+    }
+    let ep1 = (ep2 * div).max(c.ep1 as u32);
+    if ep1 > 0xFFFF || ramp_samples(ep1) > 200_000.0 {
+        rec.class("envelope-change-outside-budget");
+        return Ok(());
+    }
+    let mut ay = mk(c.ym, 0, c.clock, c.rate);
+    ay.write_register(7, 0x3F);
+    ay.write_register(8 + ch as u8, 0x10);
+    ay.write_register(11, ep1 as u8);
+    ay.write_register(12, (ep1 >> 8) as u8);
+    let _ = render(&mut ay, 64)?;
+    ay.write_register(13, if c.up { 12 } else { 8 });
+    // run 1.x ramps at the first period, then lower the period in the middle of a step
+    let pre = (ramp_samples(ep1) * (1.0 + (c.at % 1000) as f64 / 1000.0)) as usize;
+    let _ = render(&mut ay, pre)?;
+    ay.write_register(11, ep2 as u8);
+    ay.write_register(12, (ep2 >> 8) as u8);
+    let r2 = ramp_samples(ep2);
+    // skip the ramp in progress, then look at eight ramps' worth of signal
+    let _ = render(&mut ay, (r2 * 1.5) as usize)?;
+    let (l, _) = render(&mut ay, (r2 * 8.0) as usize)?;
+    rec.eval();
+    // full swings: from below 30 % to above 70 % of the range (the ramp is exponential in level, so
+    // a mean-crossing count would sit on the edge of its hysteresis)
+    let lo = l.iter().cloned().fold(f64::INFINITY, f64::min);
+    let hi = l.iter().cloned().fold(f64::NEG_INFINITY, f64::max);
+    let amp = hi - lo;
+    let mut got = 0u32;
+    let mut low_seen = false;
+    for v in &l {
+        let x = (v - lo) / amp.max(1e-12);
+        if x < 0.3 {
+            low_seen = true;
+        } else if x > 0.7 && low_seen {
+            got += 1;
+            low_seen = false;
+        }
+    }
+    if amp < 1e-6 || !(6..=9).contains(&got) {
+        return Err(format!(
+            "repeating envelope (shape {}), period lowered from {} to {} while running (no R13 write): eight ramps of 256*EP/f_clk = {:.0} samples each must follow; the level swings from low to high {} times instead of 7..8 (range {:.5}) — the envelope does not run at the new period",
+            if c.up { 12 } else { 8 }, ep1, ep2, r2, got, amp
+        ));
+    }
+    rec.nontrivial(fnv(format!("{:?}", c).as_bytes()));
+    rec.class("envelope-period-lowered-while-running");
+    Ok(())
+}
+
+#[derive(Clone, Debug, Serialize, Deserialize)]
 pub struct LevelCase {
     pub ym: bool,
     pub clock: u32,
@@ -661,6 +735,15 @@ pub fn run(run: &mut Run) {
         check_ports,
     );
     run.explore("ports-to-sound", t.pick(1_500, 60_000), port_sound_strategy, check_port_sound);
+    run.explore(
+        "envelope-period-changed-while-running",
+        t.pick(600, 20_000),
+        || {
+            (any::<bool>(), clock_s(), rate_s(), any::<bool>(), 64u16..8000, 4u8..40, 0u16..1000, 0u8..3)
+                .prop_map(|(ym, clock, rate, up, ep1, divisor, at, channel)| EnvChangeCase { ym, clock, rate, up, ep1, divisor, at, channel })
+        },
+        check_env_change,
+    );
 }
 
 pub fn replay(run: &mut Run, phase: &str, case: &serde_json::Value) -> Result<(), String> {
@@ -672,12 +755,13 @@ pub fn replay(run: &mut Run, phase: &str, case: &serde_json::Value) -> Result<()
         "random-programs-bounded" => run.replay_one::<RandomCase, _>(phase, case, check_random),
         "ports-read-back" => run.replay_one::<PortCase, _>(phase, case, check_ports),
         "ports-to-sound" => run.replay_one::<PortSoundCase, _>(phase, case, check_port_sound),
+        "envelope-period-changed-while-running" => run.replay_one::<EnvChangeCase, _>(phase, case, check_env_change),
         _ => Err(format!("unknown phase {}", phase)),
     }
 }
 
 pub const LEVEL: &str = "exploration";
-pub const RULE: &str = "generated (chip AY/YM, chip clock 1.0..2.0 MHz, sample rate 8..384 kHz, stereo mode) x register programmes, judged by signal features: tone = level-crossing count with 25 % hysteresis over >= 20 periods against f_clk/(16*TP) (TP = 0 as 1; judged where f <= fs/4; tolerance 2.5 crossings + 0.4 %) and the period measured from the first to the last rising edge (tolerance 2 samples over the run + 0.02 %), with the register write order permuted; noise = transition rate about half of f_clk/(16*NP) and halving when NP doubles; envelope = for each of the 16 shapes the level at 1/4, 1/2, 3/4 of each of the first four ramps of length 256*EP/f_clk must be strictly falling / rising / at minimum / at maximum as the documented pattern says; volume = DC level strictly increasing over the 16 volumes; mixer = gated-off sources leave a flat line; panning = left/right levels per the mode table; every sample of arbitrary write/generate interleavings finite and |s| <= 4, and its i8/i16/i32 presentations equal to the clipped full-scale product; through the ports: read-back of the selected register (at most masked to its implemented bits), register numbers modulo 16; ports-to-sound: a history of (select, data) OUTs executed by the emulated CPU (biased to R13, volume/mixer registers and to values already held) with 0..1500 samples pulled from the chip after each write must give sample-for-sample the signal of the same register history written directly to the chip with the machine's clock, rate and stereo mode. non-trivial = a judged tone (distinct (TP, channel)), judged noise pair, judged envelope (distinct (shape, EP)), levels case, random programme with >= 2 volume/envelope writes, port history with register numbers above 15, ports-to-sound history of >= 4 writes with a non-zero sample";
+pub const RULE: &str = "generated (chip AY/YM, chip clock 1.0..2.0 MHz, sample rate 8..384 kHz, stereo mode) x register programmes, judged by signal features: tone = level-crossing count with 25 % hysteresis over >= 20 periods against f_clk/(16*TP) (TP = 0 as 1; judged where f <= fs/4; tolerance 2.5 crossings + 0.4 %) and the period measured from the first to the last rising edge (tolerance 2 samples over the run + 0.02 %), with the register write order permuted; noise = transition rate about half of f_clk/(16*NP) and halving when NP doubles; envelope = for each of the 16 shapes the level at 1/4, 1/2, 3/4 of each of the first four ramps of length 256*EP/f_clk must be strictly falling / rising / at minimum / at maximum as the documented pattern says; envelope period lowered while a repeating shape runs (no R13 write): eight ramps of the new length must follow (6..9 full swings of the level in eight ramp lengths); volume = DC level strictly increasing over the 16 volumes; mixer = gated-off sources leave a flat line; panning = left/right levels per the mode table; every sample of arbitrary write/generate interleavings finite and |s| <= 4, and its i8/i16/i32 presentations equal to the clipped full-scale product; through the ports: read-back of the selected register (at most masked to its implemented bits), register numbers modulo 16; ports-to-sound: a history of (select, data) OUTs executed by the emulated CPU (biased to R13, volume/mixer registers and to values already held) with 0..1500 samples pulled from the chip after each write must give sample-for-sample the signal of the same register history written directly to the chip with the machine's clock, rate and stereo mode. non-trivial = a judged tone (distinct (TP, channel)), judged noise pair, judged envelope (distinct (shape, EP)), levels case, random programme with >= 2 volume/envelope writes, port history with register numbers above 15, ports-to-sound history of >= 4 writes with a non-zero sample";
 pub const ASSUMPTIONS: &[&str] = &[
     "tolerances are stated in the rule; tone pitch is judged only below fs/4 and an envelope only when a ramp spans >= 96 samples and the run fits in 500k samples",
     "panning table is the one in the aym crate's own documentation; volume 0 is silent",
